@@ -10,7 +10,10 @@ INITIAL_MISSED = {"C01-m1", "C03-m2", "C04-m1", "C05-m1", "C08-m1", "C09-m1", "C
                   # third round (stateful / cross-call / cross-object / concurrency changes were asked for)
                   "C01-r3m1", "C01-r3m2", "C02-r3m1", "C02-r3m2", "C03-r3m1", "C03-r3m2", "C04-r3m1", "C06-r3m1", "C07-r3m2",
                   "C08-r3m1", "C09-r3m1", "C11-r3m1", "C11-r3m2", "C12-r3m1", "C12-r3m2", "C13-r3m2", "C14-r3m1", "C14-r3m2",
-                  "C15-r3m2", "C16-r3m1", "C16-r3m2", "C17-r3m2", "C18-r3m2", "C19-r3m2", "C20-r3m1", "C20-r3m2"}
+                  "C15-r3m2", "C16-r3m1", "C16-r3m2", "C17-r3m2", "C18-r3m2", "C19-r3m2", "C20-r3m1", "C20-r3m2",
+                  # fourth round
+                  "C01-r4m2", "C02-r4m2", "C03-r4m1", "C04-r4m1", "C04-r4m2", "C06-r4m1", "C06-r4m2", "C08-r4m2", "C09-r4m1",
+                  "C10-r4m1", "C14-r4m1", "C16-r4m2", "C18-r4m2", "C20-r4m1", "C20-r4m2"}
 only = set(sys.argv[1:])
 for name in sorted(os.listdir(os.path.join(VERIF, "seeded"))):
     d = os.path.join(VERIF, "seeded", name)
